@@ -11,6 +11,11 @@ VALG_TRUST = ["translator validity.py (T10): Network.is_valid executed symbolica
               "equal to it (props/ValidGen.v); trusted: its idiom table (self.links / in_links / out_links / origins / destinations "
               "are Graph.v's look-ups, `KEY in data` = the node entry has that attachment, an edge triple is truthy, a message is "
               "identified by its constant text, a counted object is kind + identity)"]
+CONG = ["props/ConstructGen.v"]                   # Construct.v proved equal to the regenerated construction calls (T-construct)
+CONG_TRUST = ["translator construct.py (T11): the seven construction calls of Network executed symbolically from their AST into "
+              "gen/ConstructGen.v over NxSupport.v; Construct.v is PROVED equal to it (props/ConstructGen.v); trusted: NxSupport.v as "
+              "model of DiGraph.add_node / add_nodes_from / add_edge / add_edges_from / `G.nodes[n][key] = v`, the typing of the "
+              "parameters by their annotations, isinstance(x, Node/Link) = is_node / is_link, the arity rule of `f(*lst)`"]
 LOOK = ["props/Lookups.v"]                         # pinned source of the derived look-ups and link views (T-lookups)
 LOOK_TRUST = ["translator lookups.py (T8): the bodies of Network's derived look-ups, `elements`, `states`, `next_states` and of the "
               "two link views pinned as normalised source text (a pin, not a translation: any edit breaks it)"]
@@ -55,14 +60,14 @@ PROPS = {
                 trusted=["no axioms", "Graph.v as model of the networkx graph (tied by the correspondence); Validity.v is hand-written and PROVED equal to the regenerated is_valid",
                          "the nine conditions as formalised in specs/C06_spec.v",
                          "translator facts.py (report / raise sites of Network.is_valid -> gen/Tables.v)"] + VALG_TRUST),
-    "C08": dict(extra_prop_files=LOOK, prop_file="props/C08.v", generators=["T-tables", "T-lookups"], module="harness.p_hist",
+    "C08": dict(extra_prop_files=LOOK + CONG, prop_file="props/C08.v", generators=["T-tables", "T-lookups", "T-construct"], module="harness.p_hist",
                 slice="Construct.v + Cache.v (generated invalidation table) vs Network on histories of calls and reads",
                 trusted=["no axioms", "Construct.v / Cache.v as models of networkx.DiGraph, functools.cached_property and "
                          "util/funcs.py::invalidate_cache (tied by the history correspondence)",
-                         "translator tables.py (decorator lists of network.py -> gen/Tables.v)"] + LOOK_TRUST),
-    "C09": dict(extra_prop_files=LOOK, prop_file="props/C09.v", generators=["T-lookups"], module="harness.p_hist",
+                         "translator tables.py (decorator lists of network.py -> gen/Tables.v)"] + LOOK_TRUST + CONG_TRUST),
+    "C09": dict(extra_prop_files=LOOK + CONG, prop_file="props/C09.v", generators=["T-lookups", "T-construct"], module="harness.p_hist",
                 slice="Construct.v vs Network on construction histories and the malformed-path stream",
-                trusted=["no axioms", "Construct.v as model of the construction calls on networkx.DiGraph (tied by the history correspondence)"] + LOOK_TRUST),
+                trusted=["no axioms", "Construct.v as model of the construction calls (hand-written; PROVED equal to the regenerated calls; the networkx primitives of NxSupport.v are tied by the history correspondence)"] + LOOK_TRUST + CONG_TRUST),
     "C07": dict(extra_prop_files=GLUE["extra_prop_files"] + VALG, prop_file="props/C07.v", generators=ENG + ["T-blocks", "T-validity"], module="harness.p_dyn",
                 slice="Blocks.v trees vs NumPy/CasADi; every graph the implementation's is_valid accepts is stepped and compiled",
                 trusted=DYN_TRUST + ["PARTIAL: Python exceptions outside the modelled failure points, NumPy/CasADi shape rules and IEEE "
